@@ -13,11 +13,11 @@ run_demo() {
     grep -q '^package main' "$sd/demo_test.go" && pkgdir=.
     cp "$sd/demo_test.go" $pkgdir/zz_seed_demo_test.go
     names=$(grep -o '^func Test[A-Za-z0-9_]*' "$sd/demo_test.go" | sed 's/func //' | paste -sd'|')
-    go test -vet=off -count=1 -run "^($names)\$" ./$pkgdir > /tmp/seed/demo.log 2>&1; rc=$?
+    go test -vet=off -count=1 -run "^($names)\$" ./$pkgdir > $wt.demo.log 2>&1; rc=$?
     rm -f $pkgdir/zz_seed_demo_test.go
     return $rc
   elif [ -x "$sd/demo.sh" ]; then
-    "$sd/demo.sh" "$wt" > /tmp/seed/demo.log 2>&1; return $?
+    "$sd/demo.sh" "$wt" > $wt.demo.log 2>&1; return $?
   else
     echo "no demo"; return 99
   fi
@@ -27,7 +27,7 @@ echo "demo on clean tree: rc=$r0 (want 0)"
 git apply "$sd/patch.diff" || { echo "PATCH DOES NOT APPLY"; exit 1; }
 go build ./... || { echo "DOES NOT BUILD"; git checkout -q -- .; exit 1; }
 run_demo; r1=$?
-echo "demo with patch: rc=$r1 (want non-zero)"; tail -5 /tmp/seed/demo.log
+echo "demo with patch: rc=$r1 (want non-zero)"; tail -5 $wt.demo.log
 out=$(mktemp)
 go test -json -vet=off -count=1 -timeout 25m ./... > "$out" 2>&1
 python3 - "$out" <<'PY'
